@@ -16,6 +16,9 @@ def step (st : St) : List String → St × String
     | some rc, some prev, some mx => ({ s := { enabled := en == "1", rewardCoeff := rc, prevTS := prev, maxSupply := mx } }, "ok")
     | _, _, _ => (st, "bad-op")
   | ["enable", en] => ({ s := { st.s with enabled := en == "1" } }, "ok")
+  | ["setcoef", rc] => (match rc.toInt? with
+    | some rc => ({ s := { st.s with rewardCoeff := rc } }, "ok")
+    | none => (st, "bad-op"))
   | ["setmax", mx] => match mx.toInt? with
     | some mx => ({ s := { st.s with maxSupply := mx } }, "ok")
     | none => (st, "bad-op")
